@@ -316,7 +316,7 @@ func Norm(v any) any {
 		out := N{}
 		for k, val := range x {
 			switch k {
-			case "paren", "elseif", "hoisted", "kw", "bare":
+			case "paren", "elseif", "hoisted", "kw", "bare", "bt":
 				continue
 			}
 			out[k] = Norm(val)
